@@ -244,5 +244,17 @@ func Destroy() {
 	}
 	global.loggers = nil
 	global.appenders = nil
+	unbindLoggers()
 	global.init = false
+}
+
+// unbindLoggers detaches all tags and named handles from their loggers,
+// so that they fall back to the default logger.
+func unbindLoggers() {
+	for _, t := range tagRegistry {
+		t.logger = nil
+	}
+	for _, l := range loggerMap {
+		l.logger = nil
+	}
 }
